@@ -200,6 +200,10 @@ pub fn c18(ctx: &Ctx) -> Report {
 }
 
 pub fn c20(ctx: &Ctx) -> Report {
+    // unrelated agents populate whatever the library keeps outside an agent before the exploration
+    if std::env::var("VERIF_PRISTINE").is_err() {
+        crate::agent::prelude::pollute_process();
+    }
     let mut runs = Vec::new();
     for tcp in [false, true] {
         let mut s = base_slice("purity", "C20", tcp);
@@ -221,5 +225,5 @@ pub fn c20(ctx: &Ctx) -> Report {
         runs.push(SliceRun { slice: s, depth: ctx.tier.pick(5, 7) });
     }
     let req = ["response delivered", "timed out"];
-    run_slices(ctx, runs, &req, "every unique state's history of the union slice is replayed on a fresh thread that never ran an agent (reference) and then, on a second fresh thread in this order, (1) with the time base shifted by 10^9 ms, 1 day and 1 ms, (2) unchanged after those later histories, (3) interleaved step by step with an unrelated agent on the other transport running an hour ahead, (4) with the time base at the wall clock and an hour before it, and (5) with the agent handed to another thread half way (that thread drove an unrelated agent an hour ahead before); observations (with instants relative to the base) must be identical", None)
+    run_slices(ctx, runs, &req, "before the exploration unrelated agents are driven on the main thread and every pool thread (the universe's ids / peers / credential names in other hands, every named timing configuration offset by 0.4 / 0.5 / 0.9 ms and driven to its time-out); a breach of the reference model that a pristine child process does not reproduce on the same history is a C20 violation; every unique state's history of the union slice is replayed on a fresh thread that never ran an agent (reference) and then, on a second fresh thread in this order, (1) with the time base shifted by 10^9 ms, 1 day and 1 ms, (2) unchanged after those later histories, (3) interleaved step by step with an unrelated agent on the other transport running an hour ahead, (4) with the time base at the wall clock and an hour before it, and (5) with the agent handed to another thread half way (that thread drove an unrelated agent an hour ahead before); observations (with instants relative to the base) must be identical", None)
 }
